@@ -317,7 +317,7 @@ def classify(inp):
     return "%s:%s" % (fmt, fam)
 
 
-BUDGET = dict(quick=240, thorough=1500)
+BUDGET = dict(quick=240, thorough=1000)
 
 
 def harnesses(tier):
